@@ -74,7 +74,7 @@ def contextAfterText (c : Ctx) (s : Bytes) : Ctx × Nat :=
                          scriptType := c.scriptType, linkRel := c.linkRel }
       let ret := if c.state == .attr && c.elemName == scriptName && c.attrName == typeName then
           { ret with scriptType := goToLower (s.take i) } else ret
-      let ret := if c.state == .attr && c.elemName == linkName && c.attrName == relName then
+      let ret := if c.state == .attr && c.elemName == linkName && c.attrName == relName && c.linkRel == [] then
           { ret with linkRel := normLinkRel (s.take i) } else ret
       (ret, if c.delim != .spaceOrTagEnd then i + 1 else i)
 
